@@ -225,10 +225,13 @@ def body_hom(case):
 def ulam_case(draw):
     dim = draw(st.sampled_from([2, 3]))
     grid = [draw(st.integers(1, 4)) for _ in range(dim)]
+    if draw(st.sampled_from([False, False, False, True])):
+        # one long axis: flat box indices then exceed 255 / 127, which narrow-integer tables cannot hold themselves
+        grid[draw(st.integers(0, dim - 1))] = draw(st.sampled_from([17, 20, 25]))
     sims = draw(st.integers(1, 5))
     mode = draw(st.sampled_from(['full', 'full', 'sparse']))
     return {'dim': dim, 'grid': grid, 'sims': sims, 'mode': mode, 'seed': draw(gen.SEED), 'k': draw(st.integers(1, 30)),
-            'form': draw(st.sampled_from(['int64', 'int64', 'int32', 'fortran', 'strided', 'uint8']))}
+            'form': draw(st.sampled_from(['int64', 'int64', 'int32', 'fortran', 'strided', 'uint8', 'uint8', 'int8']))}
 
 
 def body_ulam(case):
@@ -258,6 +261,8 @@ def body_ulam(case):
         Tin = T.astype(np.int32)
     elif form == 'uint8':
         Tin = T.astype(np.uint8)            # unsigned box indices: index - 1 must not wrap around
+    elif form == 'int8':
+        Tin = T.astype(np.int8)
     elif form == 'fortran':
         Tin = np.asfortranarray(T)
     elif form == 'strided':
@@ -282,6 +287,8 @@ def body_ulam(case):
         lab.add('repeated_transition')
     if 1 in grid:
         lab.add('single_box_axis')
+    if max(grid) >= 17:
+        lab.add('long_axis')
     return lab
 
 
